@@ -19,7 +19,7 @@ ACTIONS = ["OtherTakes", "OtherReplacesUs", "OtherReleases", "Forge", "BusReques
 def key_names(m, obs):
     ex = m.get("explained_by") or []
     if ex:
-        return "%s:%s" % (m["what"], "+".join(sorted(ex)))
+        return "%s:%s" % ("+".join(sorted(ex)), m["what"])      # explained by a named deviation of the spec
     # class of failing history: clause + what the client knew + how it answered
     info = (m.get("detail") or {}).get("info") if isinstance(m.get("detail"), dict) else None
     if isinstance(info, dict):
